@@ -493,7 +493,7 @@ class Flow:
                 preset[p_] = self.ev(defaults[p_]) if isinstance(defaults[p_], ast.Constant) else None
                 if preset[p_] is None:
                     return None
-        sub = Flow(callee, self.file, keep_arms=False, resolver=self.resolver, _depth=self._depth + 1, _env=preset)
+        sub = Flow(callee, self.file, keep_arms=False, resolver=self.resolver, _depth=self._depth + 1, _env=preset, consts=self.consts)
         rets = [(f.value, list(f.guards)) for f in sub.facts if f.kind == "return"]
         if not rets or any(f.kind in ("store", "augstore", "attrstore", "append", "mutate") for f in sub.facts):
             return None
@@ -1109,11 +1109,65 @@ def simp(v):
                 if inner[0] == "const" and isinstance(inner[1], str):
                     parts.append(inner)
                     continue
+                if inner[0] == "const" and type(inner[1]) is int:
+                    parts.append(("const", str(inner[1])))       # f">{WIDTH}" with WIDTH a known integer constant
+                    continue
                 if inner[0] == "fstr":
                     parts.extend(inner[1])
                     continue
             parts.append(p)
         return flatten_fstr(("fstr", tuple(parts)))
+    # ---- the same string / list spelled with builtins instead of displays (values only, nothing is run) ----
+    if k == "call" and v[1][0] == "global" and not v[3]:
+        fn, args = v[1][1], v[2]
+        # format(x, "spec") is f"{x:spec}"
+        if fn == "format" and len(args) in (1, 2) and (len(args) == 1 or (args[1][0] == "const" and isinstance(args[1][1], str))):
+            return ("fstr", (("fmt", args[0], (args[1][1] or None) if len(args) == 2 else None, -1),))
+        # getattr(x, "name") is x.name
+        if fn == "getattr" and len(args) == 2 and args[1][0] == "const" and isinstance(args[1][1], str) and args[1][1].isidentifier():
+            return ("attr", args[0], args[1][1])
+    # "ab" * 3
+    if k == "binop" and v[1] == "Mult" and {v[2][0], v[3][0]} == {"const"}:
+        a, b = v[2][1], v[3][1]
+        if isinstance(a, int) and isinstance(b, str):
+            a, b = b, a
+        if isinstance(a, str) and type(b) is int and 0 <= b * len(a) <= 256:
+            return ("const", a * b)
+    # [f(a, b) for a, b in ((a1, b1), (a2, b2), ..)] over a display of known elements is the display [f(a1, b1), f(a2, b2), ..]
+    if k == "comp" and v[1] == "list" and len(v[3]) == 1 and not v[3][0][2] and v[3][0][1][0] in ("tuple", "list") and 0 < len(v[3][0][1][1]) <= 16 \
+            and not any(e[0] == "star" for e in v[3][0][1][1]):
+        tg, it, _ = v[3][0]
+        names = [tg] if tg is not None and tg[0] == "bv" else list(tg[1]) if tg is not None and tg[0] == "tuple" and all(t is not None and t[0] == "bv" for t in tg[1]) else None
+        if names is not None:
+            out = []
+            for e in it[1]:
+                if tg[0] == "bv":
+                    m = {tg: e}
+                elif e[0] in ("tuple", "list") and len(e[1]) == len(names) and not any(x[0] == "star" for x in e[1]):
+                    m = dict(zip(names, e[1]))
+                else:
+                    out = None
+                    break
+                out.append(simp(subst(v[2], m)))
+            if out is not None:
+                return ("list", tuple(out))
+    # list + list: one list (operands that are not displays are spliced in as *operand)
+    if k == "binop" and v[1] == "Add" and (v[2][0] == "list" or v[3][0] == "list"):
+        def operands(x):
+            if x[0] == "binop" and x[1] == "Add":
+                return operands(x[2]) + operands(x[3])
+            return [x]
+        elts = []
+        for o in operands(v[2]) + operands(v[3]):
+            if o[0] == "list":
+                elts.extend(o[1])
+            elif is_str(o) or o[0] == "const":
+                elts = None
+                break
+            else:
+                elts.append(("star", o))
+        if elts is not None:
+            return ("list", tuple(elts))
     if k == "sub":
         base, idx = v[1], v[2]
         if base[0] in ("list", "tuple") and idx[0] == "const" and isinstance(idx[1], int) \
@@ -1437,3 +1491,55 @@ def guards_satisfiable(guards, extra=()):
 def guards_imply(a, b):
     """every path on which all guards of `a` hold also satisfies all guards of `b`"""
     return all(not guards_satisfiable(a, [(c, not p)]) for c, p in b)
+
+
+# ---------------------------------------------------------------------- accumulators as comprehensions
+
+def acc_as_comp(flow, name: str):
+    """The value an accumulator local holds after its loop, as the comprehension IR it is equal to, or None.
+
+        X = []                      X = {}
+        for t in IT:                for t in IT:
+            [temps; guards]             [temps; guards / continue]
+            X.append(E)                 X[K] = V
+        -> [E for t in IT if G..]   -> {K: V for t in IT if G..}
+
+    Read off the facts: exactly one empty initialisation, exactly one mutating fact (append / element store) inside exactly one
+    `for` loop entered after the initialisation; the guards the store acquired inside the loop become the filters (a guard
+    with negative polarity becomes `not g`).  Temporaries are already expanded in the fact's value (use-def)."""
+    inits = [f for f in flow.facts if f.kind == "init" and f.target == name]
+    muts = [f for f in flow.facts if f.target == name and f.kind in ("append", "store", "augstore", "remove", "mutate", "delete")]
+    if len(inits) != 1 or len(muts) != 1:
+        return None
+    init, m = inits[0], muts[0]
+    iv = simp(init.value)
+    empty_list = iv in (("list", ()), ("call", ("global", "list"), (), ()))
+    empty_dict = iv in (("dict", ()), ("call", ("global", "dict"), (), ()), ("call", ("global", "OrderedDict"), (), ()))
+    if m.seq < init.seq or init.loops or len(m.loops) != 1 or m.loops[0].kind != "for":
+        return None
+    lp = m.loops[0]
+    if any(isinstance(x, tuple) and len(x) == 2 and x[0] == "acc" and x[1] == name for part in (m.value, m.index, lp.iter) if part is not None for x in walk(part)):
+        return None
+    outer = list(init.guards)
+    if list(m.guards[:len(outer)]) != outer:
+        return None
+    inner = m.guards[len(outer):]
+    bv = ("bv", "_a", next(_fresh))
+    sub = {}
+
+    def bound(x):
+        """loop-bound atoms (elem / idx / key / val of this loop) -> comprehension variables"""
+        for y in walk(x):
+            if isinstance(y, tuple) and len(y) == 3 and y[0] in ("elem", "idx", "key", "val") and y[2] == lp.id and y not in sub:
+                sub[y] = bv if y == ("elem", lp.iter, lp.id) else ("bv", f"_a_{y[0]}", next(_fresh))
+    for part in [m.value, m.index] + [g for g, _ in inner]:
+        if part is not None:
+            bound(part)
+    if any(k != ("elem", lp.iter, lp.id) for k in sub):
+        return None            # enumerate / zip / items destructuring: not needed so far, left to the loop-form rules
+    ifs = tuple(simp(subst(g if p else ("unop", "Not", g), sub)) for g, p in inner)
+    if m.kind == "append" and m.op == "append" and empty_list:
+        return ("comp", "list", simp(subst(m.value, sub)), ((bv, lp.iter, ifs),))
+    if m.kind == "store" and empty_dict:
+        return ("comp", "dict", ("tuple", (simp(subst(m.index, sub)), simp(subst(m.value, sub)))), ((bv, lp.iter, ifs),))
+    return None
